@@ -72,7 +72,7 @@ def run(tier, seed):
                       "NamespaceIndex::{insert_service,remove_service,do_insert_service,do_remove_service}", "ServiceIndex::{insert_service,remove_service}",
                       "Service::{update_instance,remove_instance}", "TimeoutSet::{add,timeout}"],
           "bound": "three services (namespaces n1, n1, n2), one address each; every history of %d steps over {register (healthy / ephemeral symbolic), deregister, timer clean-up at a later "
-                   "point of the clock grid start + %s s (service time-out 30 s), console removal of a service}" % (n, [(g - BASE) // 1000 for g in GRID])}
+                   "point of the clock grid start + %s s (service time-out 30 s), console removal of a service}; each of the other steps optionally behind a timer round at the next grid point" % (n, [(g - BASE) // 1000 for g in GRID])}
     try:
         prog = load()
         clock = {"now": BASE}
@@ -83,11 +83,12 @@ def run(tier, seed):
         opv = [z3.BitVec("op%d" % i, 8) for i in range(n)]
         svcv = [z3.BitVec("svc%d" % i, 8) for i in range(n)]
         timev = [z3.BitVec("time%d" % i, 8) for i in range(n)]
+        advv = [z3.Bool("timer_round_in_front_of_step%d" % i) for i in range(n)]
         healthy = [z3.Bool("s%d_healthy" % i) for i in range(n)]
         eph = [z3.Bool("s%d_ephemeral" % i) for i in range(n)]
         covers = {"an empty service is dropped by the timer": 0, "a service whose only instance is unhealthy survives a due clean-up": 0,
                   "a namespace leaves the index with its last service": 0, "console removal of a service with an instance is refused": 0,
-                  "console removal of an empty service": 0}
+                  "console removal of an empty service": 0, "time passes between two operations of one history step": 0}
         ops_box = [[]]
 
         def instance(s, h, e):
@@ -119,6 +120,22 @@ def run(tier, seed):
                 return ("violation", "a service is listed twice in the namespace / group index", log, "index-duplicate")
             return None
 
+        def do_tick(actor, t, rec, log, ref, unhealthy_only):
+            clock["now"] = t
+            before = set((k["namespace_id"], k["group_name"], k["service_name"]) for k in actor["service_map"].keys())
+            ns_before = set(actor["namespace_index"]["namespace_group"].keys())
+            it.call_method("NamingActor", "clear_empty_service", actor, [])
+            rec.append({"op": "tick", "at_s": (t - BASE) // 1000})
+            log.append(("tick", "+%ds" % ((t - BASE) // 1000)))
+            after = set((k["namespace_id"], k["group_name"], k["service_name"]) for k in actor["service_map"].keys())
+            if before - after:
+                covers["an empty service is dropped by the timer"] += 1
+            if set(actor["namespace_index"]["namespace_group"].keys()) != ns_before:
+                covers["a namespace leaves the index with its last service"] += 1
+            for s in SERVICES:
+                if ref[s] and unhealthy_only[s] and s in after and t >= BASE + 100_000:
+                    covers["a service whose only instance is unhealthy survives a due clean-up"] += 1
+
         def thunk():
             r = inner()
             return (r, list(ops_box[0]))
@@ -136,21 +153,17 @@ def run(tier, seed):
                     t = pick(it, timev[i], GRID[1:])
                     if t <= clock["now"]:
                         raise rseval.PathAbort()
-                    clock["now"] = t
-                    before = set((k["namespace_id"], k["group_name"], k["service_name"]) for k in actor["service_map"].keys())
-                    ns_before = set(actor["namespace_index"]["namespace_group"].keys())
-                    it.call_method("NamingActor", "clear_empty_service", actor, [])
-                    rec.append({"op": "tick", "at_s": (t - BASE) // 1000})
-                    log.append(("tick", "+%ds" % ((t - BASE) // 1000)))
-                    after = set((k["namespace_id"], k["group_name"], k["service_name"]) for k in actor["service_map"].keys())
-                    if before - after:
-                        covers["an empty service is dropped by the timer"] += 1
-                    if set(actor["namespace_index"]["namespace_group"].keys()) != ns_before:
-                        covers["a namespace leaves the index with its last service"] += 1
-                    for s in SERVICES:
-                        if ref[s] and unhealthy_only[s] and s in after and t >= BASE + 100_000:
-                            covers["a service whose only instance is unhealthy survives a due clean-up"] += 1
+                    do_tick(actor, t, rec, log, ref, unhealthy_only)
                 else:
+                    if it.branch(advv[i]):
+                        later = [g for g in GRID if g > clock["now"]]
+                        if not later:
+                            raise rseval.PathAbort()
+                        do_tick(actor, later[0], rec, log, ref, unhealthy_only)
+                        bad = check(actor, ref, log)
+                        if bad:
+                            return bad
+                        covers["time passes between two operations of one history step"] += 1
                     s = pick(it, svcv[i], SERVICES)
                     if op == "reg":
                         h = it.branch(healthy[i])
